@@ -3,6 +3,7 @@ import YaegiVerif.Expected.C09
 namespace YaegiVerif.Expected.C10
 open YaegiVerif.RunId
 def facts : RunIdFacts := Expected.C09.facts
+def round2Facts : RunIdFacts := Expected.C09.round2Facts
 def oldFacts : RunIdFacts := Expected.C09.oldFacts
 def execRuns : List String := Expected.C09.execRuns
 def sourceHashes : List (String × String) := Expected.C09.sourceHashes
